@@ -160,6 +160,8 @@ struct Sys {
     toks: BTreeMap<String, Vec<u32>>,
     /// amounts are logged in the i128-edge regime (`fine_amount`)
     edge: bool,
+    /// ledgers at which calls were made (where checkpoints can lie): asked about, with their neighbours, ever after
+    marks: std::collections::BTreeSet<u32>,
 }
 
 /// Runs `$body` with `$cl` bound to the typed client of the flavour's contract (the three clients
@@ -217,7 +219,7 @@ impl Sys {
             "bare" => (e.register(bare::BareVotes, (o,)), Fl::Bare),
             f => panic!("flavour {f}"),
         };
-        Sys { e, names, accts: accts.to_vec(), c, fl, flavour: flavour.to_string(), toks: BTreeMap::new(), edge }
+        Sys { e, names, accts: accts.to_vec(), c, fl, flavour: flavour.to_string(), toks: BTreeMap::new(), edge, marks: Default::default() }
     }
 
     /// NFT flavour: the token a call on behalf of `from` is about.
@@ -233,8 +235,12 @@ impl Sys {
 
     /// Ledgers asked about after every call: everything back to ledger 0 in short runs, a sliding
     /// window of 40 ledgers plus every 7th older ledger in long runs.
-    fn past_ledgers(now: u32) -> Vec<u32> {
-        (0..now).filter(|l| now <= 48 || *l + 40 >= now || l % 7 == 0).collect()
+    fn past_ledgers(&self, now: u32) -> Vec<u32> {
+        // (the 120 most recent call ledgers: a lookup that goes wrong exactly AT some checkpoint's ledger is found
+        // however far back that checkpoint lies in a long history)
+        let recent: Vec<u32> = self.marks.iter().rev().take(120).copied().collect();
+        let near = |l: u32| recent.iter().any(|m| *m == l || *m == l + 1 || *m + 1 == l);
+        (0..now).filter(|l| now <= 48 || *l + 40 >= now || l % 7 == 0 || near(*l)).collect()
     }
 
     fn obs(&self) -> Value {
@@ -292,7 +298,7 @@ impl Sys {
         let supply_j = if self.fl == Fl::Bare { ju(total) } else { jint(supply) };
         // answers about the past (-1: refused)
         let mut past = Vec::new();
-        for l in Sys::past_ledgers(now) {
+        for l in self.past_ledgers(now) {
             let mut v = JMap::new();
             for a in &self.accts {
                 let ad = self.names.get(a);
@@ -334,6 +340,7 @@ impl Sys {
         let e = &e;
         set_seq(e, seq(e) + n(op, "dt") as u32);
         let now = seq(e);
+        self.marks.insert(now);
         let who = auth_addrs(op, &self.names);
         let kind = s(op, "op");
         let amt = if self.edge { fine_amount(n(op, "amt")) } else { n(op, "amt") as i128 };
@@ -602,6 +609,20 @@ fn main() {
                 t.reset(reset_event(&sys));
                 // state feedback, from the harness's own view of what succeeded
                 let mut bal: BTreeMap<String, i64> = accts.iter().map(|a| (a.clone(), 0)).collect();
+                // long histories: one run in six starts with 33..70 power changes in as many different ledgers on one
+                // delegate's and on the total's timeline (binary search over a long checkpoint list, every ledger asked)
+                if !edge && (run / 4) % 6 == 2 {
+                    let d = if r.gen_bool(0.5) { "a" } else { "b" };
+                    let mut pre = vec![op_json("delegate", "a", d, "none", 0, &["a".to_string()], 1)];
+                    for _ in 0..r.gen_range(33..70) {
+                        pre.push(op_json("mint", "none", "a", "none", 1, &[OWNER.to_string()], *pick(&mut r, &[1i64, 1, 1, 2, 3])));
+                    }
+                    for op in pre {
+                        let ev = sys.step(&op);
+                        feedback(&mut bal, &op, &ev);
+                        t.step(ev);
+                    }
+                }
                 for i in 0..len {
                     let dt = if r.gen_ratio(1, 25) { 200 } else { *pick(&mut r, dts) };
                     let holders: Vec<String> = bal.iter().filter(|(_, v)| **v > 0).map(|(k, _)| k.clone()).collect();
